@@ -1,5 +1,5 @@
 #!/venv/bin/python
-"""Evaluate a seeded change produced by a sub-agent: tools/seed_eval.py <Cxx> [worktree] [--checks C01,C02]
+"""Evaluate a seeded change produced by a sub-agent: tools/seed_eval.py <Cxx> [worktree] [--checks C01,C02] [--name Cxx_r2]
 Copies <worktree>/SEED/{patch.diff,demo.py,meta.json} to /verif/seeded/<id>/, applies the patch to a scratch copy of /repo/yastn
 (outside /repo and /verif), confirms the demonstration, runs the quick check(s) against the scratch copy (VERIF_REPO) and writes result.json."""
 import json, os, shutil, subprocess, sys, tempfile, time
@@ -9,7 +9,8 @@ wt = sys.argv[2] if len(sys.argv) > 2 and not sys.argv[2].startswith('--') else 
 checks = [pid]
 if '--checks' in sys.argv:
     checks = sys.argv[sys.argv.index('--checks') + 1].split(',')
-dst = os.path.join(V, 'seeded', pid)
+name = sys.argv[sys.argv.index('--name') + 1] if '--name' in sys.argv else pid
+dst = os.path.join(V, 'seeded', name)
 os.makedirs(dst, exist_ok=True)
 for f in ('patch.diff', 'demo.py', 'meta.json'):
     src = os.path.join(wt, 'SEED', f)
